@@ -129,8 +129,12 @@ ReqCapSpecific(cfg, k, st) ==
              CASE k = "wrapper" ->
                       IF cfg.fault = "cap" THEN [st EXCEPT !.exc = TRUE]
                       \* redirect, unless the addons want to see the body or redirecting is known to be futile
-                      ELSE IF st.meta.stream /\ ~cfg.proxied THEN HandlerInject(st)
-                      ELSE [st EXCEPT !.meta.url = "handler"]
+                      \* either way the target is the request's CURRENT url (an addon's rewrite included)
+                      \* with the wrapper host replaced by the wrapped cap's host
+                      ELSE IF st.meta.stream /\ ~cfg.proxied
+                           THEN [st EXCEPT !.meta.resp = IF st.meta.url = "addon" THEN "redirAddon" ELSE "redir",
+                                           !.meta.pinj = TRUE]
+                      ELSE [st EXCEPT !.meta.url = IF @ = "addon" THEN "handlerAddon" ELSE "handler"]
                [] k \in {"eq", "seed"} -> IF cfg.fault = "cap" THEN [st EXCEPT !.exc = TRUE] ELSE st
                [] k = "empty" -> IF tgt.k = "login" /\ ~st.meta.browser
                                  THEN [st EXCEPT !.meta.cap = [k |-> "login", s |-> 0, r |-> 0]] ELSE st
@@ -298,12 +302,19 @@ CloseBody(s) ==
 \* waits for the main process (held by an addon, handed back, between request and response)
 SessionCloses(s) == s \in CloseSet /\ closed = {} /\ mf.ev # "none" /\ fromQ = <<>> /\ CloseBody(s)
 
+\* The proxy-side pump wakes up and finds nothing to apply (yet): any number of times, at any
+\* point -- also while an item is still on its way through the queue.  Nothing may change; in
+\* particular an intercepted flow stays intercepted (HeldUntilApplied).
+IdlePoll == /\ out' = [n |-> "IdlePoll", exc |-> FALSE, res |-> "ok"]
+            /\ UNCHANGED <<tgt, px, fromQ, toQ, mf, hb, ap, handled, fixed, calls, closed>>
+
 Next == \/ \E b, h \in BOOLEAN : InterceptRequest(b, h)
         \/ \E b \in BOOLEAN : InterceptResponse(b)
         \/ \E cfg \in Cfgs : Handle(cfg)
         \/ \E op \in {"take", "resume", "preempt"}, mod \in BOOLEAN : AddonCall(op, mod)
         \/ \E bad \in BadApply : Apply(bad)
         \/ \E s \in CloseSet : SessionCloses(s)
+        \/ IdlePoll
 
 Spec == Init /\ [][Next]_vars
 
@@ -348,7 +359,11 @@ GoneReadsNone == mf.meta.cap.s \notin closed
 \* closing a session neither hands a flow back nor prevents it: the other invariants are stated
 \* over hb/ap/mf only and hold across SessionCloses (checked by TLC like any other action)
 \* a hand-back says "response injected" exactly when it carries an injected response
-InjectedSurvives == \A i \in 1..Len(toQ) : toQ[i].meta.pinj <=> toQ[i].meta.resp \in {"addon", "handler"}
+InjectedSurvives == \A i \in 1..Len(toQ) :
+                        toQ[i].meta.pinj <=> toQ[i].meta.resp \in {"addon", "handler", "redir", "redirAddon"}
+\* a wrapper redirect never points at a stale (pre-rewrite) url
+RedirectFollowsRewrite == \A i \in 1..Len(toQ) : LET m == toQ[i].meta IN
+                              /\ (m.resp = "redir" => m.url = "orig") /\ (m.resp = "redirAddon" => m.url = "addon")
 (*************************** observation (binding B1) **********************)
 Obs == [px |-> [icpt |-> px.icpt, meta |-> px.meta],
         fromQ |-> fromQ,
